@@ -25,7 +25,7 @@ ASSUMPTIONS = [
     "inputs whose re-read fails under BOTH configurations are not comparable and are counted (C11 judges re-readability)",
     "VERS and WRAP items are excluded from the comparison, as the statement says",
 ]
-REQUIRED = ["pairs_compared", "pairs_12_vs_20", "pairs_wrap_vs_nowrap", "pairs_with_table_and_other_well_items", "corpus_pairs", "generated_pairs", "pairs_source_case_lower", "pairs_source_case_preserve", "inputs_with_wide_tables", "pairs_with_rows_over_256_chars", "pairs_header_style_differs_with_column_fmt"]
+REQUIRED = ["pairs_compared", "pairs_12_vs_20", "pairs_wrap_vs_nowrap", "pairs_with_table_and_other_well_items", "corpus_pairs", "generated_pairs", "pairs_source_case_lower", "pairs_source_case_preserve", "inputs_with_wide_tables", "pairs_with_rows_over_256_chars", "pairs_header_style_differs_with_column_fmt", "inputs_with_a_steering_line_twice"]
 SOFT_DEADLINE = {"quick": 100, "thorough": 1500}
 LEVEL_TEXT = "Metamorphic exploration over pairs of writer configurations; equality of the two re-reads is the oracle."
 LEVEL_NOTE = "Equality of two observed executions; trusts the canonical snapshot; configurations outside the listed dimensions are not covered."
@@ -85,6 +85,19 @@ def grid(tier):
     for k2 in range(3):      # an input without data rows, header styles
         yield {"input": "gen", "seed": 7100 + k2, "cfg1": {"mnemonics_header": True}, "cfg2": {}, "fmt": 0, "gen_version": 2, "src_case": "upper", "no_rows": True}
         yield {"input": "gen", "seed": 7110 + k2, "cfg1": {"wrap": True, "mnemonics_header": True}, "cfg2": {"wrap": False}, "fmt": k2, "gen_version": 1.2, "src_case": "upper", "no_rows": True}
+    for k2, (dup, c1, c2, extra) in enumerate((("WRAP", {"wrap": True, "data_width": 30}, {"wrap": False}, {"wide": 3}),
+                                               ("WRAP", {"wrap": True}, {"wrap": False}, {"wide": 13}),
+                                               ("VERS", {"version": 1.2}, {"version": 2}, {"no_rows": True}),
+                                               ("DLM", {"version": 1.2, "wrap": True}, {"version": 2}, {"wide": 6}))):
+        for sc in ("upper", "preserve"):
+            yield dict({"input": "gen", "seed": 7200 + k2, "cfg1": c1, "cfg2": c2, "fmt": 0, "gen_version": 2, "src_case": sc, "dup_line": dup}, **extra)
+    # a text sample with '#' inside it ('47#', a casing weight), from a wrapped and from a comma-delimited source (both read by the
+    # normal engine): the unwrapped output is read by the numpy engine, for which '#' started a comment anywhere on a line
+    head = "~Version\nVERS. 2.0 : v\nWRAP. %s : w\n%s~Well\nSTRT.M 1.0 : s\nSTOP.M 2.0 : s\nSTEP.M 1.0 : s\nNULL. -999.25 : n\n~Curve\nDEPT.M : d\nCSG. : casing\nGR.GAPI : g\n~A\n"
+    for text in (head % ("YES", "") + "1.0\n47# 10.5\n2.0\n40# 11.5\n", head % ("NO", "DLM. COMMA : d\n") + "1.0,47#,10.5\n2.0,40#,11.5\n",
+                 head % ("NO", "") + "1.0 47# 10.5\n2.0 40# 11.5\n"):
+        yield {"input": "lit", "text": text, "cfg1": {"wrap": True}, "cfg2": {"wrap": False}, "fmt": 0}
+        yield {"input": "lit", "text": text, "cfg1": {"version": 1.2}, "cfg2": {"version": 2, "wrap": True}, "fmt": 0}
     for k2 in range(3):      # witness of the known finding: a date-like text curve, wrapped vs unwrapped
         yield {"input": "gen", "seed": 7000 + k2, "cfg1": {"version": 2, "wrap": True}, "cfg2": {"version": 2, "wrap": False}, "fmt": 0, "gen_version": 2, "src_case": "upper", "date_curve": True, "wide": 7}
     # wide tables: data rows of every length relative to the 79 / 255 / 256-character marks, with and without wrapping
@@ -163,12 +176,24 @@ def run_case(case, ctx):
                 ctx.count("inputs_with_short_well_descriptions")
             obj.write(b, version=case["gen_version"])
             source = b.getvalue()
+            if case.get("dup_line"):
+                # a steering line of ~Version stated twice (the items are then called WRAP:1 / WRAP:2)
+                lines = source.split("\n")
+                at = next(i for i, ln in enumerate(lines) if ln.split(".")[0].strip().upper() == case["dup_line"])
+                lines.insert(at + 1, lines[at])
+                source = "\n".join(lines)
+                ctx.count("inputs_with_a_steering_line_twice")
             fresh = lambda: lasio.read(source, mnemonic_case=mc)
             fresh()
         except Exception as e:
             ctx.count("skipped_input_not_materialisable")
             return
         kind = "generated"
+    elif case["input"] == "lit":
+        source = case["text"]
+        fresh = lambda: lasio.read(source, mnemonic_case=mc)
+        kind = "generated"
+        ctx.count("literal_inputs")
     else:
         path = os.path.join(env.REPO, case["input"])
         fresh = lambda: lasio.read(path, mnemonic_case=mc)
